@@ -1,0 +1,5 @@
+//go:build !verif
+
+package concurrency
+
+func verifPoint(string) {}
